@@ -19,6 +19,9 @@ vars == <<run, idx, ok>>
 
 Explains(cfg, e) ==
     LET c == e.c  r == e.r IN
+    \* an unsorted list is outside the property (the code documents it by an assertion): whatever
+    \* happens, as long as the call returns
+    IF c.op \in {"lcskpp_unsorted", "sdpkpp_unsorted"} THEN r.st \in {"ok", "panic"} ELSE
     /\ r.st = "ok"
     /\ CASE c.op \in {"kmer_matches", "kmer_matches_h1", "kmer_matches_h2"} ->
               r.v = KmerMatches(cfg.x, cfg.y, cfg.k)
@@ -27,12 +30,21 @@ Explains(cfg, e) ==
          [] c.op = "expand" -> ExpandOk(cfg.x, cfg.y, cfg.k, c.a.m, r.v)
          [] OTHER -> FALSE
 
+\* conformance with the code as it is, beyond the property: the exposed dp vector of lcskpp, the refusal
+\* of unsorted lists
+Exact(cfg, e) ==
+    CASE e.c.op = "lcskpp" -> ("dp" \in DOMAIN e.r) => DpVectorOk(e.c.a.m, cfg.k, e.r.dp)
+      [] e.c.op \in {"lcskpp_unsorted", "sdpkpp_unsorted"} -> e.r.st = "panic"
+      [] OTHER -> TRUE
+
 Init == run \in 1..Len(Rec) /\ idx = 0 /\ ok = TRUE
 Next ==
     /\ ok /\ idx < Len(Rec[run].ev)
     /\ LET good == Explains(Rec[run].cfg, Rec[run].ev[idx + 1])
        IN  /\ ok' = good
-           /\ IF good THEN TRUE ELSE PrintT(<<"REJECT", run, idx + 1>>)
+           /\ IF good
+              THEN (IF Exact(Rec[run].cfg, Rec[run].ev[idx + 1]) THEN TRUE ELSE PrintT(<<"DRIFT", run, idx + 1>>))
+              ELSE PrintT(<<"REJECT", run, idx + 1>>)
     /\ idx' = idx + 1
     /\ UNCHANGED run
 Spec == Init /\ [][Next]_vars
